@@ -59,6 +59,8 @@ def c09_decls(tier, seed=0):
                 tys.append(("bool", 1))
             for kind, w in tys:
                 add(W, [Field("f", _ty_for(kind, w), [(lo, n)])], f"single range {lo}..={hi} as {kind}{w}")
+                if n == 1 and lo in (0, W - 1, W):
+                    add(W, [Field("f", _ty_for(kind, w), [(lo, n)], style="range1")], f"one-bit range bits({lo}..={lo}) as {kind}{w}")
         # reversed bounds (lo > hi), alone and hidden inside a list whose widths happen to add up
         for lo, hi in ((5, 3), (3, 2), (W - 1, 0)):
             if lo < W + 2 and lo > hi >= 0:
